@@ -284,7 +284,10 @@ def _run_and_judge(case, m, n, bs, kind, val, ths, objkw, pick, ctx):
                 # the covariance is diagonal by definition (twice the weighted variance per parameter): the component density is the
                 # product of univariate normals (no matrix test that could refuse variances of very different magnitude)
                 q += wj * np.prod(ss.norm.pdf(np.reshape(th, (n, -1)), loc=np.reshape(mj, -1), scale=sd_), axis=1)
-            ok = (pd > 0) & (q > 0)            # densities that underflow in floating point are not compared
+            # densities that underflow in floating point - to 0 or into the subnormal range, where no relative accuracy is left -
+            # are not compared
+            with np.errstate(all='ignore'):
+                ok = (pd > 1e-290) & (q > 1e-290) & (pd / np.where(q > 0, q, 1.0) > 1e-290)
             if not ok.all():
                 labels.append('underflowing-density-skipped')
             with np.errstate(all='ignore'):
